@@ -462,7 +462,7 @@ def run_check(plugin, tier, seed, replay=None):
         for cls, detail in viol:
             violations.append({"kind": "oracle", "class": cls, "case": c, "detail": detail, "observed": out})
         if i in model_out:
-            if model_out[i] == "(0)":          # model says: outside the modelled domain
+            if model_out[i] == "(4242424242)":   # model says: outside the modelled domain
                 unmodelled += 1
                 continue
             n_model += 1
